@@ -441,6 +441,10 @@ func (g *Gen) unop(x *ssa.UnOp, st *State, r string) {
 		v := g.defVal(x, t)
 		g.assume(g.typeFacts(st, v.T, et))
 		if gl, ok := x.X.(*ssa.Global); ok {
+			if c, isConst := g.prog.constGlobals[gl]; isConst {
+				g.assume("(= " + v.T + " " + g.constVal(c).T + ")")
+				g.stats.TrustedUsed["package variable "+gl.String()+" is never reassigned"] = true
+			}
 			name := gl.Name()
 			if gl.Pkg != nil {
 				name = gl.Pkg.Pkg.Path() + "." + name
